@@ -68,7 +68,8 @@ def _replay(lines, families, lockstep, repo, procs=16):
 _memo = {}
 
 
-def run(prop, tier, repo=None, families=("mixin", "light"), others=("node", "anynode", "symlink")):
+def run(prop, tier, repo=None, families=("mixin", "light"),
+        others=("node", "anynode", "symlink", "adv:falsy:mixin", "adv:alwayseq:light", "adv:tripwire:mixin", "adv:zerolen:light")):
     repo = repo or core.repo_path()
     key = (prop, tier, repo, families)
     if key in _memo:
